@@ -459,6 +459,13 @@ def r11(ctx):
     from . import C02
     ctx.share("C13.R11", C02.r3, "C02.R3", floor=2)
 
+def r12(ctx):
+    """a head names an entry that is held: what an insert removes is decided by the newest-wins predicate for every row it is
+    asked about - deletion markers included - and by nothing else (the prune primitive of C02.R1; an entry removed behind the
+    back of the head bookkeeping leaves a head no held entry has)"""
+    from . import C02
+    ctx.share("C13.R12", C02.r1, "C02.R1", keep=lambda k: "predicate-decides" in k or "prune-predicate" in k, floor=2)
+
 def run(ctx):
     ctx.run_rule("C13.R1", r1)
     ctx.run_rule("C13.R2", r2)
@@ -471,3 +478,4 @@ def run(ctx):
     ctx.run_rule("C13.R9", r9)
     ctx.run_rule("C13.R10", r10)
     ctx.run_rule("C13.R11", r11)
+    ctx.run_rule("C13.R12", r12)
